@@ -290,6 +290,63 @@ fn histories(rep: &Reporter, c: &Counters, depth: usize) -> BfsStats {
     st
 }
 
+/// PUSH / POP of a memory operand that overlaps the stack slot it is pushed to / popped from:
+/// the operand is read completely before anything is written
+fn sweep_overlap(rep: &Reporter, c: &Counters) {
+    let mems: Vec<(Mem, usize)> = vec![
+        (Mem { seg: None, form: MemForm::Reg(R_BX) }, R_BX),
+        (Mem { seg: Some(SEG_SS), form: MemForm::Reg(R_SI) }, R_SI),
+        (Mem { seg: None, form: MemForm::RegDisp(R_BP, -1) }, R_BP),
+        (Mem { seg: None, form: MemForm::RegDisp(R_BP, 3) }, R_BP),
+    ];
+    let mut is: Vec<(Instr, Mem, usize, bool)> = Vec::new();
+    for (m, r) in mems.iter() {
+        is.push((Instr::Push(Opnd::Mem(W::W, *m)), *m, *r, true));
+        is.push((Instr::Pop(Opnd::Mem(W::W, *m)), *m, *r, false));
+    }
+    is.par_iter().for_each(|(i, m, reg, is_push)| {
+        with_worker(|wk| {
+            let site = i.shape();
+            let mut p = match prepare(i) {
+                Ok(p) => p,
+                Err(e) => {
+                    c.block(format!("{}: {:?}", site, e));
+                    return;
+                }
+            };
+            // one segment for data and stack, so that offsets decide the overlap
+            for seg in [0x0000u16, 0x0234, 0xFFFF] {
+                for sp in [0x0100u16, 0x0002, 0x0001, 0xFFFF] {
+                    for delta in -4i32..=4 {
+                        // offset of the operand relative to the stack pointer before the instruction
+                        let disp = match m.form {
+                            MemForm::RegDisp(_, d) => d,
+                            _ => 0,
+                        };
+                        let off = (sp as i32 + delta) as u16;
+                        let mut pre = RefM { r: Regs::distinct(0x3D), m: SMem::new(0), call_stack: vec![] };
+                        pre.r.flag = 0xF046;
+                        pre.r.ss = seg;
+                        pre.r.ds = seg;
+                        pre.r.es = seg ^ 0x0101;
+                        pre.r.sp = sp;
+                        pre.r.set16(*reg, off.wrapping_sub(disp as u16));
+                        // distinct bytes all around the stack pointer
+                        for k in -8i32..=8 {
+                            let a = phys(seg, (sp as i32 + k) as u16);
+                            pre.m.set(a, (0x40 + k + 8) as u8 | 0x80);
+                        }
+                        let _ = is_push;
+                        wk.case(rep, c, &mut p, &pre, &site, &[("delta", delta as i64), ("segv", seg as i64)], (delta.unsigned_abs() + 10) as u64, true);
+                    }
+                }
+            }
+            c.shapes.fetch_add(1, Ordering::Relaxed);
+            wk.flush(c);
+        })
+    });
+}
+
 /// the same push/pop sequences end-to-end as source programs: PUSH x; POP y leaves y = x, SP restored
 fn roundtrips(rep: &Reporter, c: &Counters) {
     let srcs: Vec<(&str, &str)> = vec![
@@ -417,6 +474,7 @@ pub fn run(tier: &Tier) -> i32 {
     let depth = if tier.thorough { 6 } else { 4 };
     let st = histories(&rep, &c, depth);
     roundtrips(&rep, &c);
+    sweep_overlap(&rep, &c);
     // general histories
     let seq_depth = if tier.thorough { 4 } else { 3 };
     let seq = {
